@@ -5,7 +5,9 @@
 //	                    F<i>:<bit> flip a bit of frame i's body, T<i>:<n> truncate it (re-framed),
 //	                    H<i>:<bit> flip a header bit, X<i>:<n> cut the stream n bytes into frame i,
 //	                    D<i>:<bit> duplicate frame i with a flipped bit, I<i>:<len>:<seed> inject a
-//	                    random frame before frame i, R<i> verbatim replay (observation)
+//	                    random frame before frame i, R<i> verbatim replay (observation), M<i> frame i reflected
+//	                    to A, V<i> B's reply to message i also sent back to B, A<i>:<bit> B's reply to message i
+//	                    (a B→A frame) with a bit flipped
 //	own <items>         the harness's own endpoint (knows the session key) sends to a real node:
 //	                    G good, S<mode> wrong inner signature, N no Anything, U unknown type,
 //	                    J junk plaintext, E empty plaintext, W raw frame, K other key, M malformed
@@ -38,6 +40,7 @@ import (
 	vss "github.com/DOSNetwork/core/share/vss/pedersen"
 	"github.com/golang/protobuf/proto"
 	"github.com/golang/protobuf/ptypes/any"
+	"google.golang.org/protobuf/encoding/protowire"
 
 	"verifharness/internal/h"
 	"verifharness/props/c17/fakepeer"
@@ -126,6 +129,10 @@ func exec(line string) (res h.Result) {
 		return execReg()
 	case "gcm":
 		return execGcm(w[1])
+	case "hs":
+		return execHs(w[1], w[2])
+	case "hsmitm":
+		return execHsMitm(h.Atoi(w[1]))
 	}
 	panic("bad case line")
 }
@@ -143,13 +150,19 @@ func classOf(w []string) (string, bool) {
 	if w[0] == "reg" {
 		return "reg", true
 	}
+	if w[0] == "hs" {
+		return "hs-" + w[2], true
+	}
+	if w[0] == "hsmitm" {
+		return "hsmitm", true
+	}
 	if w[0] == "gcm" {
 		return "gcm-" + strings.ReplaceAll(w[1], ",", ""), true
 	}
 	if w[0] == "own" {
 		bad := 0
 		for _, it := range split(w[1]) {
-			if it[0] != 'G' {
+			if it[0] != 'G' && it[0] != 'E' && it[0] != 'P' && !(it[0] == 'Q' && len(strings.Split(it, ":")) > 1 && (strings.Split(it, ":")[1] == "5" || strings.Split(it, ":")[1] == "3")) {
 				bad++
 			}
 		}
@@ -161,7 +174,7 @@ func classOf(w []string) (string, bool) {
 		kinds[o[0]] = true
 	}
 	var ks []string
-	for _, k := range "FTHXDIRMV" {
+	for _, k := range "FTHXDIRMVA" {
 		if kinds[byte(k)] {
 			ks = append(ks, string(k))
 		}
@@ -284,6 +297,7 @@ type delivery struct {
 	t, idx int
 	raw    []byte
 	sender string
+	nonce  uint64 // RequestNonce the message was delivered with
 }
 
 type receiver struct {
@@ -342,7 +356,7 @@ func startReceiverAs(id string, lookup func([]byte) string, replyTo map[int]bool
 				if tt != t {
 					idx = -1000 - tt // delivered to the wrong subscriber
 				}
-				r.got = append(r.got, delivery{t: t, idx: idx, raw: raw, sender: string(m.Sender)})
+				r.got = append(r.got, delivery{t: t, idx: idx, raw: raw, sender: string(m.Sender), nonce: m.RequestNonce})
 				r.mu.Unlock()
 				select {
 				case r.tick <- struct{}{}:
@@ -395,8 +409,18 @@ func (r *receiver) waitFor(t, idx int, certain bool) bool {
 	}
 }
 
-// alive: a fresh, honest connection still gets a message through
+// alive: a fresh, honest connection still gets a message through. (Up to three attempts: the node
+// gives an inbound handshake 2 s, which a loaded machine can exceed; a dead node fails all three.)
 func (r *receiver) alive() bool {
+	for try := 0; try < 3; try++ {
+		if r.aliveOnce() {
+			return true
+		}
+	}
+	return false
+}
+
+func (r *receiver) aliveOnce() bool {
 	c, err := net.DialTimeout("tcp", r.addr, 3*time.Second)
 	if err != nil {
 		return false
@@ -412,17 +436,45 @@ func (r *receiver) alive() bool {
 	select {
 	case <-r.probe:
 		return true
-	case <-time.After(10 * time.Second):
+	case <-time.After(6 * time.Second):
 		return false
 	}
 }
 
-func (r *receiver) report(nmsgs int, sent []proto.Message, senderID string, sentinelBack, alive bool) (impl, oracle string) {
+// reportOpts: what else the oracle knows about the case. dupOK: messages a verbatim copy of whose frame
+// was put on the wire again (the recorded observation: delivered again); every other message is
+// delivered at most once. nonceIsIdx: the sender used the message's index as its request nonce;
+// nonceConsecutive: the sender is a real node on ONE connection, message i carries nonce base+i.
+type reportOpts struct {
+	dupOK            map[int]bool
+	nonceAlso        map[int]map[uint64]bool // other nonces the sender itself sent message idx again with
+	nonceIsIdx       bool
+	nonceConsecutive bool
+}
+
+func (r *receiver) report(nmsgs int, sent []proto.Message, senderID string, sentinelBack, alive bool, opt reportOpts) (impl, oracle string) {
 	r.mu.Lock()
 	defer r.mu.Unlock()
 	per := make([][]string, 4)
 	count := map[[2]int]int{}
+	var base uint64
+	haveBase := false
 	for _, d := range r.got {
+		if d.idx >= 0 && d.idx < len(sent) && sent[d.idx] != nil && oracle == "" {
+			if opt.nonceIsIdx && d.nonce != uint64(d.idx) && !opt.nonceAlso[d.idx][d.nonce] {
+				oracle = fmt.Sprintf("nonce-altered: message %d was sent with request nonce %d and delivered with %d", d.idx, d.idx, d.nonce)
+			}
+			if opt.nonceConsecutive {
+				if !haveBase {
+					base, haveBase = d.nonce-uint64(d.idx), true
+				} else if d.nonce-uint64(d.idx) != base {
+					oracle = fmt.Sprintf("nonce-altered: message %d was delivered with request nonce %d; the sender's nonces on this connection are %d+i", d.idx, d.nonce, base)
+				}
+			}
+			if count[[2]int{d.t, d.idx}] >= 1 && !opt.dupOK[d.idx] && oracle == "" {
+				oracle = fmt.Sprintf("delivered-twice: message %d was sent once, no copy of its frame was put on the wire, and subscriber %s received it again", d.idx, typeNames[d.t])
+			}
+		}
 		per[d.t] = append(per[d.t], strconv.Itoa(d.idx))
 		count[[2]int{d.t, d.idx}]++
 		// the property itself: what is delivered is byte for byte a message that was sent, to the right subscriber
@@ -489,7 +541,8 @@ type proxy struct {
 	wa, wb  sync.Mutex // writes towards A / towards B
 	reflect chan int   // indices whose reply (B→A) is also to be sent back to B
 	vdone   map[int]chan struct{}
-	mirror  []int // A→B frames sent back to A (reflection) once the last frame has gone through
+	mirror  []int       // A→B frames sent back to A (reflection) once the last frame has gone through
+	alterBA map[int]int // reply to message i (B→A): bit to flip before it reaches A
 }
 
 func (p *proxy) tm(i int) *tamper {
@@ -544,20 +597,34 @@ func (p *proxy) pumpBack(a, b net.Conn) {
 		if _, err := io.ReadFull(b, body); err != nil {
 			return
 		}
-		p.wa.Lock()
-		a.Write(frame(body))
-		p.wa.Unlock()
 		if first {
 			first = false
+			p.wa.Lock()
+			a.Write(frame(body))
+			p.wa.Unlock()
 			continue
 		}
 		select {
 		case i := <-p.reflect:
-			p.wb.Lock()
-			b.Write(frame(body))
-			p.wb.Unlock()
+			toA := body
+			if bit, ok := p.alterBA[i]; ok { // a B→A frame altered in transit
+				toA = append([]byte(nil), body...)
+				pos := bit % (len(toA) * 8)
+				toA[pos/8] ^= 1 << uint(pos%8)
+			}
+			p.wa.Lock()
+			a.Write(frame(toA))
+			p.wa.Unlock()
+			if _, ok := p.alterBA[i]; !ok {
+				p.wb.Lock()
+				b.Write(frame(body))
+				p.wb.Unlock()
+			}
 			close(p.vdone[i])
 		default:
+			p.wa.Lock()
+			a.Write(frame(body))
+			p.wa.Unlock()
 		}
 	}
 }
@@ -656,7 +723,8 @@ func execMitm(msgsS, opsS string) (res h.Result) {
 	}
 	errInducing, terminalAt := 0, -1
 	replyTo := map[int]bool{}      // messages B answers with Reply
-	reflectReply := map[int]bool{} // … and whose reply the proxy also sends back to B
+	reflectReply := map[int]bool{} // … and whose reply the proxy also sends back to B (V) or alters on its way to A (A)
+	alterBA := map[int]int{}
 	var mirror []int
 	altered := map[int]bool{} // honest frames the adversary changed themselves
 	framingDamage := false
@@ -704,6 +772,11 @@ func execMitm(msgsS, opsS string) (res h.Result) {
 			replyTo[i] = true
 			reflectReply[i] = true
 			errInducing++
+		case 'A': // B answers message i; the proxy flips a bit of that B→A frame
+			replyTo[i] = true
+			reflectReply[i] = true
+			alterBA[i] = h.Atoi(a[1])
+			errInducing++
 		default:
 			panic("bad op " + op)
 		}
@@ -719,7 +792,7 @@ func execMitm(msgsS, opsS string) (res h.Result) {
 		panic(err)
 	}
 	px := &proxy{ln: ln, target: recv.addr, tab: tab, seen: make([]chan struct{}, len(sent)), once: make([]sync.Once, len(sent)), cutDone: make(chan struct{}),
-		reflect: make(chan int, len(sent)), vdone: map[int]chan struct{}{}, mirror: mirror}
+		reflect: make(chan int, len(sent)), vdone: map[int]chan struct{}{}, mirror: mirror, alterBA: alterBA}
 	for i := range px.seen {
 		px.seen[i] = make(chan struct{})
 		px.vdone[i] = make(chan struct{})
@@ -786,7 +859,13 @@ func execMitm(msgsS, opsS string) (res h.Result) {
 		}
 	}
 	cancel()
-	res.Impl, res.Oracle = recv.report(len(sent), sent, "A", back, alive)
+	dupOK := map[int]bool{}
+	for _, op := range split(opsS) {
+		if op[0] == 'R' {
+			dupOK[h.Atoi(op[1:])] = true
+		}
+	}
+	res.Impl, res.Oracle = recv.report(len(sent), sent, "A", back, alive, reportOpts{dupOK: dupOK, nonceConsecutive: !framingDamage && stuck == ""})
 	// what A's own subscribers saw (nothing was ever sent TO A's subscribers) and the replies A got
 	arecv.mu.Lock()
 	nA := len(arecv.got)
@@ -882,6 +961,13 @@ func execOwn(itemsS string) (res h.Result) {
 	}
 	sent := make([]proto.Message, len(items))
 	bad := 0
+	dupOK := map[int]bool{}
+	nonceAlso := map[int]map[uint64]bool{}
+	type accepted struct {
+		m, sig []byte
+		url    string
+	}
+	acc := map[int]accepted{} // the (payload, signature) pairs of the good packets sent so far
 	sealPkg := func(p *p2p.Package) []byte {
 		b, err := proto.Marshal(p)
 		if err != nil {
@@ -909,6 +995,68 @@ func execOwn(itemsS string) (res h.Result) {
 			sent[i] = m
 			b, _ := s.Plain(m, uint64(i), false, 0)
 			fr = s.Seal(b)
+			var pa p2p.Package
+			if proto.Unmarshal(b, &pa) == nil && pa.Anything != nil {
+				acc[i] = accepted{m: pa.Anything.Value, sig: pa.Signature, url: pa.Anything.TypeUrl}
+			}
+		case 'Q':
+			// a packet DERIVED from the accepted packet j = arg(0) by a peer that holds the session key:
+			// mode 0 re-split (payload cut at a field boundary, the rest moved in front of the signature),
+			// 1 extended payload (signature bytes moved behind the payload), 2 truncated signature,
+			// 3 signature followed by extra bytes (bn256 G1 decoding reads the first 64 bytes and ignores the
+			// rest — as the code is, see design/C11.md — so this IS a correctly signed second packet of the
+			// same payload, sent by the peer itself with its own nonce: delivered), 4 payload and signature
+			// swapped, 5 the same package with its fields written in another order (same content: a copy,
+			// delivered again like a verbatim replay)
+			a0, ok := acc[arg(0)]
+			if !ok {
+				panic("bad item " + it + ": no good packet at that index")
+			}
+			M, S := a0.m, a0.sig
+			pm, ps := M, S
+			switch arg(1) {
+			case 0:
+				cut := fieldBoundary(M, arg(2))
+				pm, ps = M[:cut], append(append([]byte(nil), M[cut:]...), S...)
+			case 1:
+				cut := 1 + arg(2)%(len(S)-1)
+				pm, ps = append(append([]byte(nil), M...), S[:cut]...), S[cut:]
+			case 2:
+				ps = S[:len(S)-1-arg(2)%(len(S)-1)]
+			case 3:
+				ps = append(append([]byte(nil), S...), syn(1+arg(2)%40, i)...)
+			case 4:
+				pm, ps = S, M
+			case 5:
+			default:
+				panic("bad item " + it)
+			}
+			if arg(1) == 5 {
+				// Signature (field 2), ReplyFlag/RequestNonce, Sender, then Anything (field 1) last
+				var bb []byte
+				bb = protowire.AppendTag(bb, 2, protowire.BytesType)
+				bb = protowire.AppendBytes(bb, S)
+				bb = protowire.AppendTag(bb, 4, protowire.VarintType)
+				bb = protowire.AppendVarint(bb, uint64(arg(0)))
+				bb = protowire.AppendTag(bb, 3, protowire.BytesType)
+				bb = protowire.AppendBytes(bb, []byte("H"))
+				anyb, _ := proto.Marshal(&any.Any{TypeUrl: a0.url, Value: M})
+				bb = protowire.AppendTag(bb, 1, protowire.BytesType)
+				bb = protowire.AppendBytes(bb, anyb)
+				fr = s.Seal(bb)
+				dupOK[arg(0)] = true
+			} else {
+				fr = sealPkg(&p2p.Package{Anything: &any.Any{TypeUrl: a0.url, Value: pm}, Sender: []byte("H"), Signature: ps, RequestNonce: uint64(i)})
+				if arg(1) == 3 {
+					dupOK[arg(0)] = true
+					if nonceAlso[arg(0)] == nil {
+						nonceAlso[arg(0)] = map[uint64]bool{}
+					}
+					nonceAlso[arg(0)][uint64(i)] = true
+				} else {
+					bad++
+				}
+			}
 		case 'S':
 			m := mkMsg(i, arg(1), arg(2), arg(3))
 			b, _ := s.Plain(m, uint64(i), false, arg(0))
@@ -957,7 +1105,7 @@ func execOwn(itemsS string) (res h.Result) {
 	sentinel := len(items) - 1
 	back := recv.waitFor(0, sentinel, true)
 	alive := recv.alive()
-	res.Impl, res.Oracle = recv.report(len(items), sent, "H", back, alive)
+	res.Impl, res.Oracle = recv.report(len(items), sent, "H", back, alive, reportOpts{dupOK: dupOK, nonceAlso: nonceAlso, nonceIsIdx: true})
 	if bad == 0 && res.Oracle == "" {
 		res.Oracle = recv.honestOracle(nonNil(sent))
 	}
@@ -966,6 +1114,26 @@ func execOwn(itemsS string) (res h.Result) {
 }
 
 func nonNil(ms []proto.Message) []proto.Message { return ms }
+
+// fieldBoundary: the k-th boundary between top-level protobuf fields of b, never len(b) (that would be the
+// packet itself again); 0 (an empty payload) only when b has a single field
+func fieldBoundary(b []byte, k int) int {
+	var cuts []int
+	for off := 0; off < len(b); {
+		_, _, n := protowire.ConsumeField(b[off:])
+		if n <= 0 {
+			break
+		}
+		off += n
+		if off < len(b) {
+			cuts = append(cuts, off)
+		}
+	}
+	if len(cuts) == 0 {
+		return 0
+	}
+	return cuts[k%len(cuts)]
+}
 
 // execRace: n honest connections, each sending one message, each while another inbound
 // connection fails its handshake (connects and hangs up).
@@ -1038,6 +1206,10 @@ func gen(tier string, rng *h.Rng, emit func(string)) {
 	genSub(tier, h.NewRng(rng.U64()), emit)
 	// the known finding gcm-nonce-reuse-forgery: a keyless proxy forges frames once it has seen three
 	genGcm(emit)
+	// what the handshake binds: announced ids (B's own = 42, another member's, empty, long), presented keys
+	for _, l := range []string{"hs 41 k", "hs 42 k", "hs - k", "hs 4242 k", "hs 000102030405060708090a0b0c0d0e0f10111213 k", "hs 41 i", "hs 41 g", "hs - g", "hsmitm 3"} {
+		emit(l)
+	}
 	// honest transport
 	emit("mitm 0:1:1 -")
 	emit("mitm 0:1:1,1:1:2,2:1:3,3:1:4,2:17:5,3:4096:6,0:1:7,1:1:8 -")
@@ -1091,6 +1263,11 @@ func gen(tier string, rng *h.Rng, emit func(string)) {
 	}
 	emit("mitm 0:1:1,1:1:2,2:50:3 M0,M1,M3")
 	emit("mitm 0:1:1,1:1:2,2:50:3 V1,M0,M2")
+	// a REPLY (B→A) altered in transit: the call must not return it
+	// (only the reply to the LAST message: after the rejected frame A's run returns and its next request
+	// dials a new connection — or not, a race — so nothing may follow on the scripted one)
+	emit(fmt.Sprintf("mitm 0:1:1,2:30:2,1:1:3 A3:%d", rng.Intn(1<<12)))
+	emit(fmt.Sprintf("mitm 3:100:1,0:1:2 V0,A2:%d", rng.Intn(1<<12)))
 	emit("mitm 2:100:1,3:100:2 I0:10:1,I0:20:2,I1:5:3,D1:77,I2:9:4")
 	// several ops
 	n2 := 20
@@ -1133,6 +1310,11 @@ func gen(tier string, rng *h.Rng, emit func(string)) {
 	for _, it := range []string{"N", "U", "J5", "J0", "E", "W1", "W40", "K0:1", "K2:300", "M0", "M2", "P0:1:1", "P2:10:1"} {
 		emit("own G1:1:1," + it + ",G2:5:5")
 	}
+	// packets derived from an accepted one by a peer holding the session key (multi-step, one connection)
+	for mode := 0; mode <= 5; mode++ {
+		emit(fmt.Sprintf("own G3:40:7,Q0:%d:%d,G2:9:9", mode, rng.Intn(50)))
+		emit(fmt.Sprintf("own G%d:%d:%d,G0:1:1,Q0:%d:%d,Q1:%d:%d", 2+rng.Intn(2), 1+rng.Intn(300), rng.Intn(100), mode, rng.Intn(50), (mode+1)%5, rng.Intn(50)))
+	}
 	n3 := 30
 	if thorough {
 		n3 = 300
@@ -1162,15 +1344,10 @@ func gen(tier string, rng *h.Rng, emit func(string)) {
 	}
 }
 
-// genGcm: the cases of the known finding gcm-nonce-reuse-forgery (enabled together with its KNOWN_FINDINGS line)
+// genGcm: the cases of the known finding gcm-nonce-reuse-forgery (KNOWN_FINDINGS.txt)
 func genGcm(emit func(string)) {
-	if !gcmCasesOn {
-		return
-	}
 	emit("gcm C")
 	emit("gcm P")
 	emit("gcm N,C")
 	emit("gcm P,B,N")
 }
-
-var gcmCasesOn = false
